@@ -11,6 +11,9 @@ struct aws_time_ghost {
 	int gm_valid;		/* gmtime_r has been evaluated at gm_arg */
 	time_t gm_arg;
 	struct tm gm_val;	/* its (arbitrary, well-formed) value there */
+	size_t fmt_calls;	/* successful strftime calls */
+	size_t fmt_len[4];	/* what the first four of them produced (length, bytes incl. NUL) */
+	char fmt_out[4][32];
 };
 extern struct aws_time_ghost g_aws_time;
 
